@@ -26,7 +26,7 @@ CLAIMED = {
         "garbage-collection points (last-reference drops and gc.collect() inside emits and inside connect() itself), weak arguments and "
         "senders that are alive but falsy, sender classes up to three levels deep, checked per emit interval "
         "against a registry model with must/may/never-call sets, argument order, return value and weakref liveness; one history in ten drives the bundled "
-        "emitters (CheckBox, RadioButton groups, Button incl. the connect / disconnect forms its documentation gives for a callback with user data and for the constructor's on_press, list walkers) through their mutators, keys and mouse presses against the documented emission contract. "
+        "emitters (CheckBox, RadioButton groups, Button incl. the connect / disconnect forms its documentation gives for a callback with user data and for the constructor's on_press, list walkers) through their mutators, keys and mouse presses against the documented emission contract, also with a handler that presses the button again while its click is being delivered. "
         "Sampling, not proof: a clean batch is evidence that no interleaving of the sampled shapes breaks the property.",
         "Trusts CPython refcount/GC semantics with gc disabled during a run; handlers never raise; liveness of weak "
         "arguments is observed by polling at handler and operation boundaries.",
@@ -41,7 +41,7 @@ CLAIMED["C13"] = (
     "Each of the six bundled event loops (select, asyncio, tornado, twisted, zmq, trio) runs real on a virtual clock "
     "and fake descriptors under seeded user programs: alarms on a time grid, watched pipes with scheduled arrivals "
     "(coinciding with alarm due times, order decided by a tie-break tape), idle callbacks, re-entrant API calls from "
-    "callbacks, arbitrary return values, one injected exception (optionally followed by an ExitMainLoop from another callback of "
+    "callbacks, arbitrary return values, one injected exception (ExitMainLoop, ValueError, a private exception or KeyboardInterrupt; optionally followed by an ExitMainLoop from another callback of "
     "the same turn), a second run() on the same loop object, registrations replaced inside one readiness batch, a watch on descriptor 0, "
     "a second urwid loop object on the same backend and trio's run_async entry. A bounded enumeration runs first: every relative order (ties "
     "included) of two timer expiries and one descriptor arrival x tie-break answers x exception placement (756 scenarios; select "
@@ -59,7 +59,7 @@ CLAIMED["C05"] = (
     "For every sampled byte stream the check enumerates EVERY single cut point and, for each, both 'remainder arrives "
     "before complete_wait' and 'timeout fires first', then adds sampled multi-cut schedules (gaps around complete_wait, "
     "short reads, SIGWINCH between fragments, timer/arrival ties both ways) on all six event loops and the synchronous "
-    "get_input path; the real Screen reads a fake tty on a virtual clock. Oracles: no exception, byte accounting, "
+    "get_input path (max_wait set beside complete_wait in two thirds of the event-loop schedules); the real Screen reads a fake tty on a virtual clock. Oracles: no exception, byte accounting, no flush of pending bytes sooner than complete_wait after the last fragment, "
     "fragmentation invariance against whole delivery of each actually-flushed group, an implementation-independent token "
     "table (323 key sequences with their documented names generated from the terminals' conventions rather than read from escape.py, X10/SGR mouse, CPR, UTF-8, double-byte characters of the EUC and of the Big5/GBK/UHC kind (trail byte in the ASCII range) in six wide encodings, truncated UTF-8 reported byte by byte), bounded flush. Exhaustive per sampled stream over "
     "single-cut schedules; streams themselves are sampled.",
@@ -73,7 +73,7 @@ CLAIMED["C12"] = (
     "session",
     "fault_enumeration",
     "The whole stack runs real (MainLoop, posix raw Screen, six event loops plus the screen-without-external-loop path, "
-    "widgets, a PopUpLauncher, a second page and an unselectable splash page the application switches to from an input handler, a widget that passes on a "
+    "widgets, a PopUpLauncher (building a new pop-up each time or keeping one object), a second page and an unselectable splash page the application switches to from an input handler, a widget that passes on a "
     "different key, timers that change the tty's signal keys and toggle mouse tracking, ctrl-Z / fg with the terminal checked while the process is stopped) on a fake tty (output stream unbuffered or block-buffered) / virtual clock with RefTerm as the terminal. Each sampled session is run fault-free, "
     "the invocations of every callback category are counted, and the session is re-run for every invocation index x "
     "{ExitMainLoop, ValueError, private exception, KeyboardInterrupt} (crash-point enumeration; capped per session in the quick tier). Checked: "
@@ -127,7 +127,7 @@ CLAIMED["C06"] = (
     "cache",
     "exploration",
     "Two widget trees are built from one generated spec and driven through the same seeded history of render/rows calls on the "
-    "root or any subtree (sizes, focus), public mutators (incl. ListBox.shift_focus and set_focus_valign), contents/walker edits, focus changes, key and mouse input, and canvas "
+    "root or any subtree (sizes, focus), public mutators (incl. ListBox.shift_focus, set_focus_valign and replacing the body by a walker of the old kind without a modified signal), contents/walker edits, focus changes, key and mouse input, and canvas "
     "lifetime events (hold a returned canvas, drop one, gc.collect()). One tree lives with CanvasCache as an application's tree "
     "does; on the twin every widget is _invalidate()d before every operation, i.e. it is urwid with the cache emptied first. "
     "Content, cursor, rows(), input results and exceptions must agree at every step, and every held canvas is re-read after every "
